@@ -9,7 +9,7 @@ macro_rules! scen {
             sym: Box::new(move || { #[allow(dead_code)] type T_ = $crate::real::SymR; $func::<T_ $($(, $G)*)?>($($arg),*) }),
             f64_: Some(Box::new(move || { #[allow(dead_code)] type T_ = f64; $func::<T_ $($(, $G)*)?>($($arg),*) })),
             cn: Some(Box::new(move || { #[allow(dead_code)] type T_ = $crate::real::Cn; $func::<T_ $($(, $G)*)?>($($arg),*) })),
-            max_paths: 4096, timeout: None,
+            extra: vec![], max_paths: 4096, timeout: None,
         });
     };
 }
@@ -34,7 +34,7 @@ macro_rules! ubody {
             pub fn register(v: &mut Vec<crate::explore::Scenario>) {
                 for ((name, prop, tier, funcs, fs), (name2, _, _, _, fc)) in sym::list().into_iter().zip(conc::list()) {
                     assert_eq!(name, name2);
-                    v.push(crate::explore::Scenario { name, prop, tier, funcs, sym: fs, f64_: None, cn: Some(fc), max_paths: 8192, timeout: None });
+                    v.push(crate::explore::Scenario { name, prop, tier, funcs, sym: fs, f64_: None, cn: Some(fc), extra: vec![], max_paths: 8192, timeout: None });
                 }
             }
         }
@@ -60,6 +60,7 @@ pub mod c14;
 pub mod c15;
 pub mod c16;
 pub mod c17;
+pub mod c17i;
 pub mod c19;
 
 pub fn all() -> Vec<Scenario> {
@@ -82,6 +83,8 @@ pub fn all() -> Vec<Scenario> {
     c15::register(&mut v);
     c16::register(&mut v);
     c17::register(&mut v);
+    c17i::register(&mut v);
+    c17i::register_c13(&mut v);
     c19u::register(&mut v);
     c19::register(&mut v);
     c20u::register(&mut v);
